@@ -675,6 +675,11 @@ func (e *Engine) doCallValues(p *Path, fr *Frame, c *ssa.CallCommon, fnVal Value
 	}
 	var fn *ssa.Function
 	var bind []Value
+	if ft, ok := fnVal.(*Term); ok {
+		if fv := closureOf(ft); fv != nil {
+			fnVal = fv
+		}
+	}
 	switch fv := fnVal.(type) {
 	case *FuncV:
 		fn, bind = fv.Fn, fv.Bind
@@ -1246,6 +1251,12 @@ func (e *Engine) intrinsic(p *Path, fr *Frame, key string, fn *ssa.Function, arg
 		// exact: clears the sign bit (also of NaNs and infinities)
 		use()
 		return BVBin("bvand", args[0].(*Term), BVU(0x7fffffffffffffff, 64)), true
+	case "math::Trunc":
+		// exact: round toward zero to an integral value (NaN stays NaN; the sign of zero is kept)
+		use()
+		x := args[0].(*Term)
+		r := fpToBits(FPOp("fp.roundToIntegral", FP64, RTZ, toFP(x)), 64, st.Assume)
+		return Ite(fpIsNaN(x), x, r), true
 	case "math::Signbit":
 		use()
 		return Eq(Extract(63, 63, args[0].(*Term)), BVU(1, 1)), true
